@@ -283,6 +283,12 @@ def special_dep_scenarios(failing=False):
             out.append(sc(f"special:pre-on-output:{''.join(order)}:f{fb}", "special:pre-on-output" + (":fail" if fb else ""), [[XP("xp", body)]]))
     jobs = [J("a", 1, cls="jobout"), J("b", 2, cls="jobout"), J("c", 3, [("a", "oin"), ("b", "pre-o-on-oin")])]
     out.append(sc("special:pre-output-on-output", "special:pre-on-output", [[XP("xp", jobs)]]))
+    # a task that defines task_outputs, used as a task-typed value itself (not through its output), alone or next to its output
+    for via in ("up-task", "ups-task", "holder-task", "holder2-task", "pre-task", "init-task"):
+        for fa in ((0, 1) if failing else (0,)):
+            deps = [("a", via)] + ([("a", "oin")] if via == "ups-task" else [])
+            body = [J("a", 1, cls="jobx", code=fa), J("c", 3), J("b", 2, deps), J("d", 4, [("b", "up")])]
+            out.append(sc(f"special:task-with-outputs:{via}:f{fa}", "special:task-with-outputs" + (":fail" if fa else ""), [[XP("xp", body)]]))
     return out
 
 
@@ -372,6 +378,29 @@ def reparam_scenarios():
                   expect_exits={1: [1, 0], 2: [0]}))
     out.append(sc("reparam:other-experiment", "reparam", [[XP("xp1", [J("a", 1, code=4)]), XP("xp2", [J("a_", 1, code=5)]), XP("xp1", [J("a__", 1, code=0)])]],
                   expect_exits={1: [4, 5, 0]}))
+    return out
+
+
+def jobkill_relaunch_scenarios():
+    """A job process dies abruptly (SIGKILL / OOM: its pid file stays behind); its scheduler submits the job again in a following
+    experiment, under a token shared with a second process that has jobs of its own on that token: during the new start the pid
+    file on disk is the stale one."""
+    out = []
+    for njobs2 in (1, 2):
+        p1 = [XP("xpA", [TOK("t", 1), J("a", 1, tok=[("t", 1)])]), XP("xpA", [TOK("t", 1), J("a_", 1, tok=[("t", 1)])])]
+        p2 = [XP("xpB", [TOK("t", 1)] + [J("bcd"[i], 2 + i, tok=[("t", 1)]) for i in range(njobs2)])]
+        out.append(sc(f"jobkill:relaunch+token:{njobs2}", "jobkill:relaunch", [p1, p2], fine=True, kill=True, kill_pid="job:j1", expect_job_failure=[1]))
+    return out
+
+
+def token_relaunch_scenarios():
+    """A job under a token fails and is submitted again by a following experiment of its process (its token file has the same name
+    at every launch) while a second process sharing the token directory has jobs of its own on that token."""
+    out = []
+    for njobs2 in (1, 2):
+        p1 = [XP("xpA", [TOK("t", 1), J("a", 1, code=1, tok=[("t", 1)])]), XP("xpA", [TOK("t", 1), J("a_", 1, code=0, tok=[("t", 1)])])]
+        p2 = [XP("xpB", [TOK("t", 1)] + [J("bcd"[i], 2 + i, tok=[("t", 1)]) for i in range(njobs2)])]
+        out.append(sc(f"2proc:tok-relaunch:{njobs2}", "2proc:tok:relaunch", [p1, p2], fine=True))
     return out
 
 
